@@ -36,6 +36,14 @@ func (b *pb) add(op Op) {
 		op.F = "hostile-bytes"
 	}
 	b.ops = append(b.ops, op)
+	// repetition: the very same call again and again (counters, run-length limits, "the n-th time
+	// is different"); not for operations that create handles
+	if op.D == 0 && b.r.Intn(60) == 0 && len(b.ops) < 80 {
+		n := []int{1, 2, 3, 4, 7, 8, 9, 15, 16, 17, 32}[b.r.Intn(11)]
+		for i := 0; i < n; i++ {
+			b.ops = append(b.ops, op)
+		}
+	}
 }
 
 func (b *pb) newU(p int) int {
@@ -108,7 +116,12 @@ func (b *pb) set(u int, w int) {
 	case k == 2 && len(b.urls) > 1:
 		b.add(Op{K: "set", P: b.party[u], H: u, W: w, V: "peer", S: b.urls[b.r.Intn(len(b.urls))]})
 	case k == 3:
-		b.add(Op{K: "set", P: b.party[u], H: u, W: w, V: "own", A: QS(b.g.pick([]string{" ", "/", ":", "x", "?", "#", "\t", ".", "%41"}))})
+		suf := b.g.pick([]string{" ", "/", ":", "x", "?", "#", "\t", ".", "%41"})
+		if w == 7 {
+			// building a query step by step: u.SetSearch(u.Search() + "&k=v")
+			suf = b.g.pick([]string{"&k=v", "&x", "&&y=1", "&=", "=v", "&a=1&b=2", "&" + b.g.Name() + "=" + b.g.Value(), "&"})
+		}
+		b.add(Op{K: "set", P: b.party[u], H: u, W: w, V: "own", A: QS(suf)})
 	default:
 		b.add(Op{K: "set", P: b.party[u], H: u, W: w, A: QS(b.g.SetterValue(w))})
 	}
@@ -192,6 +205,12 @@ func (b *pb) spMut(s int, iter bool) {
 	}
 	switch b.r.Weighted(w) {
 	case 0:
+		if b.r.Chance(1, 20) {
+			// the pair with an empty name and an empty value: it serializes to "=" (or to nothing under
+			// WithSkipEqualsForEmptySearchParamsValue) and is dropped or kept by parsers in odd ways
+			b.add(Op{K: "sp.append", P: p, H: s, A: "", B: "", F: f})
+			return
+		}
 		b.add(Op{K: "sp.append", P: p, H: s, A: QS(b.g.Name()), B: QS(b.g.Value()), F: f})
 	case 1:
 		b.add(Op{K: "sp.delete", P: p, H: s, A: QS(b.g.Name()), F: f})
@@ -441,6 +460,26 @@ func genWorldPlan(prop string, master uint64, run int) Plan {
 		}
 	case "C12":
 		pl.Cfg = neutralConfig(r)
+		if r.Chance(1, 4) {
+			// both C12 clauses are stated relative to the implementation's own serializer and its own
+			// fresh initialisation, so they hold under every configuration (not under
+			// fail-on-validation-error, which lets SetSearch abort half-way by design)
+			// nor with repeated percent-decoding: there the canonicalizer deliberately stores
+			// pre-encoded text in the pairs, so the list is not the parse of the query right after Parse)
+			pl.Cfg = genConfig(r, false)
+			var o []OptSpec
+			for _, x := range pl.Cfg.Opts {
+				// parser options only (a canonicalizer option may rewrite the query from the list inside
+				// Parse), and none that changes how a query is encoded or decoded (re-parsing an encoded
+				// query is not idempotent under an encode set that contains '%', and the reference would
+				// have to model the encoding override)
+				switch x.N {
+				case "report", "lax", "collapse", "acceptInvalid", "singlePct", "allowPathNonBase", "skipDrive", "skipTrailing", "skipEquals", "special", "pre", "post":
+					o = append(o, x)
+				}
+			}
+			pl.Cfg.Opts = o
+		}
 		u := b.parse(r.Chance(1, 6))
 		if r.Chance(1, 2) {
 			// make sure there is a query to talk about
